@@ -8,39 +8,50 @@ CFG = {
                      "theories/Formats/GltfProofs.v", "theories/Formats/GltfExtProofs.v",
                      "theories/Formats/GltfDedupProofs.v", "theories/Formats/GltfNodeProofs.v",
                      "theories/Formats/GltfTexProofs.v", "theories/Formats/GltfFinalProofs.v", "theories/Formats/GltfGeomProofs.v",
-                     "theories/Formats/GltfGlbProofs.v"],
+                     "theories/Formats/GltfGlbProofs.v", "theories/Formats/GltfR4DedupProofs.v",
+                     "theories/Formats/GltfR4NodeProofs.v", "theories/Formats/GltfR4TexProofs.v",
+                     "theories/Formats/GltfR4ExtraProofs.v", "theories/Formats/GltfR4FullProofs.v"],
     "level_text": "Coq theorems about a state-machine model of the glTF writer (WriteVector2/3/4, WriteIndices, AddTexture, "
                   "AddMaterial, AddMesh, AddScene, AddLight, ToGLTF, WriteGLB): for every scene the buffer views tile the "
                   "buffer, every accessor fits its view and decodes to the model's float32/byte/index image, index width and "
                   "range, per-primitive counts, declared bounds, extension bookkeeping, de-duplication and the GLB length "
-                  "arithmetic hold; the model is tied to the Go code on every run by evaluating it (vm_compute) on generated "
+                  "arithmetic hold; the whole property sentence is proved in the checker's own boolean form (gltf_valid_model: "
+                  "gltf_validb on the model's document = true for every scene_wf scene, alignment excepted); "
+                  "the model is tied to the Go code on every run by evaluating it (vm_compute) on generated "
                   "scenes against what an independent reader extracts from WriteBinary/WriteText output, and the property "
                   "checker gltf_validb is evaluated on the implementation's own documents",
     "level_note": "Trusted: Coq kernel + vm_compute; hand-written model tied by differential correspondence only; the JSON "
                   "text is read back by encoding/json (not modelled); payloads above 2600 bytes are compared on the Go side "
-                  "by an independent decoder and only the structure goes to Coq. Component alignment is refuted for the "
+                  "by an independent decoder and only the structure goes to Coq. gltf_valid_model assumes scene_wf: pointer "
+                  "identity consistent with values (meshes, materials, textures), Go == classes of extension values "
+                  "consistent, names that become JSON object keys distinct within their object (unreferenced_entry_refuted "
+                  "shows the last is needed). Component alignment is refuted for the "
                   "faithful model (alignment_refuted) and reproduced on the implementation (known finding gltf:unaligned-view)",
     "technique": "Coq proof (invariant over the writer's step function, induction over model lists) + vm_compute correspondence check",
     "design_ref": "DESIGN.md §4 C06, §5 entries 7, 8, 20",
     "n_quick": 220, "n_thorough": 2000,
-    "rule": "18 fixed scenes (empty, one triangle, unaligned second mesh, negative-only non-float32 coordinates, shared mesh "
+    "rule": "26 fixed scenes (empty, one triangle, unaligned second mesh, negative-only non-float32 coordinates, shared mesh "
             "pointer x material, materials equal by value / differing only in normal or occlusion texture, instances + TRS + "
-            "lights, JOINTS_0 bytes, refused alphaCutoff, 65535/65536/65537 vertices, NaN and -0, texture transform, LOD placements[:2] / placements / placements[2:] as views of one instance array, Position data of three meshes as prefix / window of one array with a shared index array and the same model value listed twice), 4 (24) "
+            "lights, JOINTS_0 bytes, refused alphaCutoff, 65535/65536/65537 vertices, NaN and -0, texture transform, LOD placements[:2] / placements / placements[2:] as views of one instance array, Position data of three meshes as prefix / window of one array with a shared index array and the same model value listed twice; six of the earlier scenes again through ONE Writer: WriteGLB + ToGLTF + WriteGLB again / two AddScene calls / AddScene + AddLight; identity node transforms, lights at the origin and at -0; image URIs differing only in case or directory with one texture in two slots), 4 (24) "
             "big scenes with 65534..70001 vertices run-length encoded, and the corpus scene of fix 31c30a5 (materials differing only in a texture's extension list), random scenes: 1-3 meshes (point/triangle, 0-12 "
             "vertices, attribute mix of Position/Normal/TexCoord/Color/Joint/Weight/custom, value modes mixed / negative only / "
-            "tenths / constant / NaN,-0), 0-4 textures over 4 URIs and 0-2 samplers, 0-3 material extensions, 0-4 materials "
+            "tenths / constant / NaN,-0 / float32 edge values: denormals, below the smallest denormal (rounds to +-0), near MaxFloat32, 2^24+1), 0-4 textures over 6 URIs (two differ only in case / directory) and 0-2 samplers, 0-3 material extensions, 0-4 materials "
             "half of them by-value copies with at most one field changed, 1-6 models with repeated mesh pointers, optional "
-            "TRS, 0-3 GPU instances, 0-2 lights; in 2/3 of the scenes slice-typed inputs are ALIASED: GPU-instance lists, attribute data and index lists become prefix / suffix / window / whole / identical views of shared backing arrays (or equal-by-value private copies), and a model value may be listed twice (the model and the oracles always get the by-value scene); each through WriteBinary and WriteText; plus a byte-for-byte GLB case for "
+            "TRS (1/6 identity, 1/6 -0 / float64 denormal / 1e308), 0-3 GPU instances (1/3 with edge values / NaN translation), 0-2 lights (1/6 at the origin); 3/10 of the scenes are written through ONE Writer (reuse: the second GLB and the text written between the two GLBs are judged, and both GLBs must agree; split: two AddScene calls; addlight: AddScene then AddLight); in 2/3 of the scenes slice-typed inputs are ALIASED: GPU-instance lists, attribute data and index lists become prefix / suffix / window / whole / identical views of shared backing arrays (or equal-by-value private copies), and a model value may be listed twice (the model and the oracles always get the by-value scene); each through WriteBinary and WriteText; plus a byte-for-byte GLB case for "
             "small scenes and an alignment-only case per document; distinct by description; non-trivial = at least one "
             "model with a primitive",
-    "trusted": ["encoding/json reads the document back (the JSON text is not modelled); base64 by encoding/base64",
+    "trusted": ["encoding/json reads the document back (the JSON text is not modelled; properties the glTF schema requires - "
+                "buffer/bufferView byteLength, bufferView.buffer, accessor componentType/count/type, textureInfo.index, asset.version - "
+                "must be PRESENT, an absent one is rendered as an out-of-range value); base64 by encoding/base64",
                 "payloads longer than 2600 bytes: decoded and compared with the scene's float32/byte/index image and "
                 "re-computed bounds by harness/cmd/c06/payload.go (Go), not by Coq",
                 "material extension values: equality classes are computed with Go's == (what PolyformMaterial.equal evaluates)"],
     "modelled": ["float64 -> float32 conversion is performed by Go and passed to the model as bit patterns",
                  "colour rounding roundFloat(c/65535, 3) is modelled in integers (thousandths)",
                  "pointer identity of meshes / materials / textures is an abstract id supplied by the harness",
-                 "skins and animations are outside the property's quantifier and outside the model"],
+                 "skins and animations are outside the property's quantifier and outside the model; material Extras, "
+                 "the content of material-extension / light objects beyond ids, texture slots, colour, range, intensity, and "
+                 "line / quad topologies are not modelled (notes/C06.md, round 4 coverage audit)"],
 }
 
 
